@@ -975,6 +975,194 @@ Proof.
 Qed.
 End Prefix.
 
+(* left-associative ternary: (op1 + last + op2 + last)[1, ...] *)
+Section TernL.
+Variables (last : expr) (opnd : list token -> cres).
+Hypothesis Hlast : reads last opnd.
+Hypothesis Hco : forall r y r2, opnd r = COk y r2 -> consumes r r2.
+Variables (op1 op2 : expr) (ops1 ops2 : list str).
+Hypothesis Hop1 : reads_op op1 ops1.
+Hypothesis Hop2 : reads_op op2 ops2.
+Variables aB aR : attrs.
+Hypothesis HaB : wspec aB = WS dw.
+Hypothesis HaR : wspec aR = WS dw.
+Notation B := (Nary aB [] NAnd [op1; last; op2; last]).
+
+(* the four-element sequence against one round of `ternl_loop` (nothing is claimed when the operand runs out of fuel) *)
+Lemma B_tern r loc : suf r -> atp r loc ->
+  match peek_op ops1 r with
+  | Some (a, r1) =>
+    match opnd r1 with
+    | COut => True
+    | CFail => F B loc PFail
+    | COk y r2 =>
+      match peek_op ops2 r2 with
+      | Some (b, r3) =>
+        match opnd r3 with
+        | COut => True
+        | CFail => F B loc PFail
+        | COk z r4 => F B loc (POk (ps r4) [TStr a; y; TStr b; z])
+        end
+      | None => F B loc PFail
+      end
+    end
+  | None => F B loc PFail
+  end.
+Proof.
+  intros Hr Hat.
+  assert (HA : forall res, seqF G s [op1; last; op2; last] (sps r) [] res -> F B loc res).
+  { intros res H. apply F_and with (dw := dw); [exact HaB|]. rewrite (sw_at r loc Hat). exact H. }
+  pose proof (Hop1 r Hr _ (atp_spos r)) as HO. unfold op_res in HO.
+  destruct (peek_op ops1 r) as [[a r1]|] eqn:P; [|apply HA; apply seq_fail; exact HO].
+  destruct (peek_suf _ _ _ _ Hr P) as [Hr1 _].
+  destruct (opnd r1) as [| |y r2] eqn:E1; [exact I| |].
+  - apply HA. eapply seq_ok; [exact HO|]. apply seq_fail.
+    pose proof (Hlast r1 Hr1 ltac:(rewrite E1; discriminate) _ (atp_pos r1)) as H1. rewrite E1 in H1. exact H1.
+  - pose proof (Hlast r1 Hr1 ltac:(rewrite E1; discriminate) _ (atp_pos r1)) as H1. rewrite E1 in H1. cbn [res_of] in H1.
+    assert (Hr2 : suf r2) by (eapply suf_consumes; [exact Hr1|eapply Hco; exact E1]).
+    pose proof (Hop2 r2 Hr2 _ (atp_pos r2)) as HO2. unfold op_res in HO2.
+    destruct (peek_op ops2 r2) as [[b r3]|] eqn:P2;
+      [|apply HA; eapply seq_ok; [exact HO|]; eapply seq_ok; [exact H1|]; apply seq_fail; exact HO2].
+    destruct (peek_suf _ _ _ _ Hr2 P2) as [Hr3 _].
+    destruct (opnd r3) as [| |z r4] eqn:E3; [exact I| |].
+    + apply HA. eapply seq_ok; [exact HO|]. eapply seq_ok; [exact H1|]. eapply seq_ok; [exact HO2|]. apply seq_fail.
+      pose proof (Hlast r3 Hr3 ltac:(rewrite E3; discriminate) _ (atp_pos r3)) as H3. rewrite E3 in H3. exact H3.
+    + pose proof (Hlast r3 Hr3 ltac:(rewrite E3; discriminate) _ (atp_pos r3)) as H3. rewrite E3 in H3. cbn [res_of] in H3.
+      apply HA. eapply seq_ok; [exact HO|]. eapply seq_ok; [exact H1|]. eapply seq_ok; [exact HO2|].
+      eapply seq_ok; [exact H3|]. apply seq_nil.
+Qed.
+
+Lemma ternl_loop_acc : forall n acc r acc' r', ternl_loop opnd ops1 ops2 n acc r = Some (acc', r') -> exists more, acc' = acc ++ more.
+Proof.
+  induction n as [|n IH]; intros acc r acc' r' H; cbn in H; [discriminate|].
+  destruct (peek_op ops1 r) as [[a r1]|]; [|injection H as <- _; exists []; rewrite app_nil_r; reflexivity].
+  destruct (opnd r1) as [| |y r2]; [discriminate|injection H as <- _; exists []; rewrite app_nil_r; reflexivity|].
+  destruct (peek_op ops2 r2) as [[b r3]|]; [|injection H as <- _; exists []; rewrite app_nil_r; reflexivity].
+  destruct (opnd r3) as [| |z r4]; [discriminate|injection H as <- _; exists []; rewrite app_nil_r; reflexivity|].
+  apply IH in H. destruct H as [more ->]. exists ([TStr a; y; TStr b; z] ++ more). rewrite app_assoc. reflexivity.
+Qed.
+
+Lemma star_ternl : forall n acc r acc' r', ternl_loop opnd ops1 ops2 n acc r = Some (acc', r') -> suf r ->
+  forall N, length r < N -> starF G s N B (ps r) acc (POk (ps r') acc').
+Proof.
+  induction n as [|n IH]; intros acc r acc' r' H Hr N HN; [discriminate|]. destruct N as [|N]; [lia|].
+  cbn [ternl_loop] in H.
+  pose proof (B_tern r _ Hr (atp_pos r)) as HB.
+  destruct (peek_op ops1 r) as [[a r1]|] eqn:P; [|injection H as <- <-; apply star_stop; exact HB].
+  destruct (peek_suf _ _ _ _ Hr P) as [Hr1 Hc1].
+  destruct (opnd r1) as [| |y r2] eqn:O; [discriminate|injection H as <- <-; apply star_stop; exact HB|].
+  pose proof (Hco _ _ _ O) as Hc2. assert (Hr2 : suf r2) by (eapply suf_consumes; eassumption).
+  destruct (peek_op ops2 r2) as [[b r3]|] eqn:P2; [|injection H as <- <-; apply star_stop; exact HB].
+  destruct (peek_suf _ _ _ _ Hr2 P2) as [Hr3 Hc3].
+  destruct (opnd r3) as [| |z r4] eqn:O3; [discriminate|injection H as <- <-; apply star_stop; exact HB|].
+  pose proof (Hco _ _ _ O3) as Hc4. assert (Hr4 : suf r4) by (eapply suf_consumes; eassumption).
+  eapply star_step; [exact HB| |].
+  - pose proof (pos_consumes _ _ Hr (consumes_trans _ _ _ Hc1 (consumes_trans _ _ _ Hc2 (consumes_trans _ _ _ Hc3 Hc4)))). lia.
+  - apply IH; [exact H|exact Hr4|].
+    pose proof (consumes_len _ _ Hc1). pose proof (consumes_len _ _ Hc2).
+    pose proof (consumes_len _ _ Hc3). pose proof (consumes_len _ _ Hc4). lia.
+Qed.
+
+Lemma rep_ternl n : rep_reads (Rep aR [] false B None) (ternl_loop opnd ops1 ops2 n []).
+Proof.
+  intros r Hr acc r' L. destruct n as [|n]; [discriminate|]. cbn [ternl_loop] in L.
+  pose proof (B_tern r (sw s dw (ps r)) Hr (atp_spos r)) as HB.
+  destruct (peek_op ops1 r) as [[a r1]|] eqn:P;
+    [|injection L as <- <-; split; [reflexivity|]; apply F_rep_fail with (dw := dw); [exact HaR|exact HB]].
+  destruct (peek_suf _ _ _ _ Hr P) as [Hr1 Hc1].
+  destruct (opnd r1) as [| |y r2] eqn:O;
+    [discriminate|injection L as <- <-; split; [reflexivity|]; apply F_rep_fail with (dw := dw); [exact HaR|exact HB]|].
+  pose proof (Hco _ _ _ O) as Hc2. assert (Hr2 : suf r2) by (eapply suf_consumes; eassumption).
+  destruct (peek_op ops2 r2) as [[b r3]|] eqn:P2;
+    [|injection L as <- <-; split; [reflexivity|]; apply F_rep_fail with (dw := dw); [exact HaR|exact HB]].
+  destruct (peek_suf _ _ _ _ Hr2 P2) as [Hr3 Hc3].
+  destruct (opnd r3) as [| |z r4] eqn:O3;
+    [discriminate|injection L as <- <-; split; [reflexivity|]; apply F_rep_fail with (dw := dw); [exact HaR|exact HB]|].
+  pose proof (Hco _ _ _ O3) as Hc4. assert (Hr4 : suf r4) by (eapply suf_consumes; eassumption).
+  destruct (ternl_loop_acc _ _ _ _ _ L) as [more ->]. cbn [app].
+  eapply F_rep_ok with (dw := dw); [exact HaR|exact HB|].
+  change (TStr a :: y :: TStr b :: z :: more) with (([] ++ [TStr a; y; TStr b; z]) ++ more).
+  apply star_ternl with (n := n); [exact L|exact Hr4|apply len_suf; exact Hr4].
+Qed.
+End TernL.
+
+(* right-associative ternary: Group(last + op1 + this + op2 + this) | last  (no repetition) *)
+Section TernR.
+Variables last this : expr.
+Variables opnd self : list token -> cres.
+Hypothesis Hlast : reads last opnd.
+Hypothesis Hself : reads this self.
+Hypothesis Hco : forall r y r2, opnd r = COk y r2 -> consumes r r2.
+Hypothesis Hcs : forall r y r2, self r = COk y r2 -> consumes r r2.
+Hypothesis Htail : forall loc r, F last loc r -> firstF G s (mf_items last) loc r.
+Variables a1 aG aA : attrs.
+Hypothesis Ha1 : callpre a1 = false.
+Hypothesis HaG : wspec aG = WS dw.
+Hypothesis HaA : wspec aA = WS dw.
+Variables (op1 op2 : expr) (ops1 ops2 : list str).
+Hypothesis Hop1 : reads_op op1 ops1.
+Hypothesis Hop2 : reads_op op2 ops2.
+
+Lemma shape_ternr rest : suf rest ->
+  let result := match opnd rest with
+                | COk x r =>
+                  match peek_op ops1 r with
+                  | Some (a, r1) =>
+                    match self r1 with
+                    | COk y r2 =>
+                      match peek_op ops2 r2 with
+                      | Some (b, r3) =>
+                        match self r3 with
+                        | COk z r' => COk (TList [x; TStr a; y; TStr b; z]) r'
+                        | CFail => COk x r
+                        | COut => COut
+                        end
+                      | None => COk x r
+                      end
+                    | CFail => COk x r
+                    | COut => COut
+                    end
+                  | None => COk x r
+                  end
+                | other => other
+                end in
+  result <> COut -> F (bodyS last a1 aG aA [last; op1; this; op2; this]) (sps rest) (res_of result).
+Proof.
+  intros Hs result N. subst result.
+  pose proof (Hlast rest Hs) as HL.
+  destruct (opnd rest) as [| |x r] eqn:O; [congruence| |].
+  - specialize (HL ltac:(discriminate) _ (atp_spos rest)). cbn [res_of] in *.
+    apply (body_grp_fail last Htail a1 aG aA Ha1 HaG HaA); [apply seq_fail; exact HL|exact HL].
+  - specialize (HL ltac:(discriminate) _ (atp_spos rest)). cbn [res_of] in HL.
+    assert (Hr : suf r) by (eapply suf_consumes; [exact Hs|eapply Hco; exact O]).
+    pose proof (Hop1 r Hr _ (atp_pos r)) as HO1. unfold op_res in HO1.
+    destruct (peek_op ops1 r) as [[a r1]|] eqn:P1.
+    2:{ cbn [res_of]. apply (body_grp_fail last Htail a1 aG aA Ha1 HaG HaA); [|exact HL].
+        eapply seq_ok; [exact HL|]. apply seq_fail. exact HO1. }
+    destruct (peek_suf _ _ _ _ Hr P1) as [Hr1 _].
+    destruct (self r1) as [| |y r2] eqn:S1; [congruence| |].
+    + cbn [res_of]. apply (body_grp_fail last Htail a1 aG aA Ha1 HaG HaA); [|exact HL].
+      eapply seq_ok; [exact HL|]. eapply seq_ok; [exact HO1|]. apply seq_fail.
+      pose proof (Hself r1 Hr1 ltac:(rewrite S1; discriminate) _ (atp_pos r1)) as H. rewrite S1 in H. exact H.
+    + pose proof (Hself r1 Hr1 ltac:(rewrite S1; discriminate) _ (atp_pos r1)) as H1. rewrite S1 in H1. cbn [res_of] in H1.
+      assert (Hr2 : suf r2) by (eapply suf_consumes; [exact Hr1|eapply Hcs; exact S1]).
+      pose proof (Hop2 r2 Hr2 _ (atp_pos r2)) as HO2. unfold op_res in HO2.
+      destruct (peek_op ops2 r2) as [[b r3]|] eqn:P2.
+      2:{ cbn [res_of]. apply (body_grp_fail last Htail a1 aG aA Ha1 HaG HaA); [|exact HL].
+          eapply seq_ok; [exact HL|]. eapply seq_ok; [exact HO1|]. eapply seq_ok; [exact H1|]. apply seq_fail. exact HO2. }
+      destruct (peek_suf _ _ _ _ Hr2 P2) as [Hr3 _].
+      destruct (self r3) as [| |z r'] eqn:S2; [congruence| |].
+      * cbn [res_of]. apply (body_grp_fail last Htail a1 aG aA Ha1 HaG HaA); [|exact HL].
+        eapply seq_ok; [exact HL|]. eapply seq_ok; [exact HO1|]. eapply seq_ok; [exact H1|]. eapply seq_ok; [exact HO2|].
+        apply seq_fail.
+        pose proof (Hself r3 Hr3 ltac:(rewrite S2; discriminate) _ (atp_pos r3)) as H. rewrite S2 in H. exact H.
+      * pose proof (Hself r3 Hr3 ltac:(rewrite S2; discriminate) _ (atp_pos r3)) as H3. rewrite S2 in H3. cbn [res_of] in H3.
+        cbn [res_of]. apply (body_grp_ok last a1 aG aA Ha1 HaG HaA).
+        eapply seq_ok; [exact HL|]. eapply seq_ok; [exact HO1|]. eapply seq_ok; [exact H1|]. eapply seq_ok; [exact HO2|].
+        eapply seq_ok; [exact H3|]. apply seq_nil.
+Qed.
+End TernR.
+
 (* ---- the levels that mk_level builds ---- *)
 Section Forms.
 Variables (ids : nat -> nat * nat) (k idx : nat) (last : expr).
@@ -1099,6 +1287,34 @@ Proof.
   eapply (shape_prefix last _ (climb_f f tighter) (climb_f f (CPrefix ops :: tighter)) (HL f) IH Htail);
     [reflexivity|solve_ws|solve_ws|exact Hop|exact Hs|exact N].
 Qed.
+
+Lemma level_TernL o1 o2 pa ops1 ops2 : op_ok o1 ops1 -> op_ok o2 ops2 ->
+  nth_error G idx = Some (snd (lvl (LTernL o1 o2 pa))) ->
+  forall f, reads (fst (lvl (LTernL o1 o2 pa))) (climb_f f (CTernL ops1 ops2 :: tighter)).
+Proof.
+  intros (Ho & Hwo & Hso & Hwho & Hop) (Ho2 & Hwo2 & Hso2 & Hwho2 & Hop2) HG f. apply this_reads; [reflexivity|exact HG|].
+  intros rest Hs N. destruct f as [|f]; [exfalso; apply N; reflexivity|].
+  rewrite climb_f_S in N |- *. unfold climb_step in N |- *.
+  unfold mk_level, mk_rep_of, mk_and. cbn [snd]. items. unfold mk_mf, mk_enh, mk_rep. cbn [flat_map mf_items app]. rewrite app_nil_r.
+  eapply (shape_last_rep last (climb_f f tighter) (HL f) (climb_cons f tighter) Htail)
+    with (loopfn := ternl_loop (climb_f f tighter) ops1 ops2 f []);
+    [reflexivity|solve_ws|solve_ws| |exact Hs|exact N].
+  apply (rep_ternl last (climb_f f tighter) (HL f) (climb_cons f tighter) o1 o2 ops1 ops2 Hop Hop2); solve_ws.
+Qed.
+
+Lemma level_TernR o1 o2 pa ops1 ops2 : op_ok o1 ops1 -> op_ok o2 ops2 ->
+  nth_error G idx = Some (snd (lvl (LTernR o1 o2 pa))) ->
+  forall f, reads (fst (lvl (LTernR o1 o2 pa))) (climb_f f (CTernR ops1 ops2 :: tighter)).
+Proof.
+  intros (Ho & Hwo & Hso & Hwho & Hop) (Ho2 & Hwo2 & Hso2 & Hwho2 & Hop2) HG.
+  induction f as [|f IH]; [intros rest _ N; exfalso; apply N; reflexivity|].
+  apply this_reads; [reflexivity|exact HG|].
+  intros rest Hs N. rewrite climb_f_S in N |- *. unfold climb_step in N |- *.
+  unfold mk_level, mk_rep_of, mk_and. cbn [snd]. items. unfold mk_mf, mk_enh, mk_rep. cbn [flat_map mf_items app]. rewrite app_nil_r.
+  eapply (shape_ternr last _ (climb_f f tighter) (climb_f f (CTernR ops1 ops2 :: tighter)) (HL f) IH
+            (climb_cons f tighter) (climb_cons f _) Htail);
+    [reflexivity|solve_ws|solve_ws|exact Hop|exact Hop2|exact Hs|exact N].
+Qed.
 End Forms.
 
 (* ---- the whole table ---- *)
@@ -1112,6 +1328,8 @@ Definition lv_rel (lv : level) (cl : clevel) : Prop :=
   | LBinL op _, CBinL ops => op_ok op ops
   | LBinR op _, CBinR ops => op_ok op ops
   | LJuxR _, CJuxR => True
+  | LTernL o1 o2 _, CTernL ops1 ops2 => op_ok o1 ops1 /\ op_ok o2 ops2
+  | LTernR o1 o2 _, CTernR ops1 ops2 => op_ok o1 ops1 /\ op_ok o2 ops2
   | _, _ => False
   end.
 
@@ -1153,6 +1371,8 @@ Proof.
   - apply level_BinL; assumption.
   - apply level_BinR; assumption.
   - apply level_JuxR; assumption.
+  - destruct Hrel as [H1 H2]. apply level_TernL; assumption.
+  - destruct Hrel as [H1 H2]. apply level_TernR; assumption.
 Qed.
 
 Lemma levels_reads n : forall table ctab, Forall2 lv_rel table ctab ->
@@ -1608,7 +1828,15 @@ Lemma F_level lv cl : clevel_of dw lv = Some cl -> (forall m, In m (level_ops cl
 Proof.
   intros H Hin. destruct lv; cbn [clevel_of] in H; try discriminate;
     try (destruct (op_spellings dw op) as [ops|] eqn:E; [|discriminate]; injection H as <-; cbn [lv_rel]; apply F_op; [exact E|exact Hin]).
-  injection H as <-. exact I.
+  - injection H as <-. exact I.
+  - unfold tern_spellings in H.
+    destruct (op_spellings dw op1) as [a|] eqn:E1; [|discriminate]. destruct (op_spellings dw op2) as [b|] eqn:E2; [|discriminate].
+    injection H as <-. cbn [lv_rel level_ops] in *.
+    split; (apply F_op; [eassumption|]); intros m Hm; apply Hin; apply in_or_app; [left|right]; exact Hm.
+  - unfold tern_spellings in H.
+    destruct (op_spellings dw op1) as [a|] eqn:E1; [|discriminate]. destruct (op_spellings dw op2) as [b|] eqn:E2; [|discriminate].
+    injection H as <-. cbn [lv_rel level_ops] in *.
+    split; (apply F_op; [eassumption|]); intros m Hm; apply Hin; apply in_or_app; [left|right]; exact Hm.
 Qed.
 
 Lemma F_rel_gen : forall tb ct, Forall2 (fun lv cl => clevel_of dw lv = Some cl) tb ct ->
